@@ -121,6 +121,24 @@ def lean_triple(k):
     return "(%s, %s, %s)" % tuple(ctok.lean_str(x) for x in k)
 
 
+def key_code(k):
+    """The site key as ONE natural number: the UTF-8 bytes of file, 0x1f, function, 0x1f, format read as a
+    big-endian base-256 numeral behind a leading 0x01 byte (injective).  Kernel evaluation of `String`
+    operations is pathologically slow in Lean 4.33 (strings are byte arrays, literals are expanded
+    character by character), whereas `Nat` literals are compared by GMP: the coverage theorems of
+    Props/C10.lean are therefore stated over these codes; `drv_c10 sites` re-computes them from the
+    string tables (`CprocVerif.C10Tables.keyCode`) and checks/c10.py cross-checks both."""
+    b = b"\x01" + "\x1f".join(k).encode("utf-8")
+    return int.from_bytes(b, "big")
+
+
+def lean_nat_list(name, doc, vals, fmt=str):
+    out = ["/-- %s -/" % doc, "def %s := [" % name]
+    out += ["  " + fmt(v) + ("," if i + 1 < len(vals) else "") for i, v in enumerate(vals)]
+    out += ["]"]
+    return out
+
+
 def load_catalogue(path=CATALOGUE):
     if not os.path.exists(path):
         return {"entries": []}
@@ -136,7 +154,10 @@ def generate(repo, gendir):
             "compiler proper, sorted. -/",
             "def sites : List (String × String × String) := ["]
     body += ["  " + lean_triple(k) + ("," if i + 1 < len(keys) else "") for i, k in enumerate(keys)]
-    body += ["]", "", "end CprocVerif.Gen.ErrorSites", ""]
+    body += ["]", ""]
+    body += lean_nat_list("codes : List Nat", "`keyCode` of every element of `sites`, in ascending numeric order "
+                          "(see tools/gen_c10.py:key_code)", sorted(key_code(k) for k in keys))
+    body += ["", "end CprocVerif.Gen.ErrorSites", ""]
     write_if_changed(os.path.join(gendir, "ErrorSites.lean"), "\n".join(body))
     os.makedirs(os.path.join(VERIF, "catalogue"), exist_ok=True)
     # sites.json describes the tree the check is pointed at; only the default tree rewrites the tracked copy
@@ -168,7 +189,13 @@ def generate(repo, gendir):
            "catalogue), 2 = external (I/O, command line, allocation failure: C17/C19) -/",
            "def entries : List ((String × String × String) × Nat) := ["]
     out += ["  (%s, %d)%s" % (lean_triple(k), c, "," if i + 1 < len(rows) else "") for i, (k, c) in enumerate(rows)]
-    out += ["]", "",
+    out += ["]", ""]
+    out += lean_nat_list("codes : List (Nat × Nat)", "(`keyCode` of the site key, class) of every element of "
+                         "`entries`, in ascending numeric order of the code", sorted((key_code(k), c) for k, c in rows),
+                         fmt=lambda v: "(%d, %d)" % v)
+    out += ["", "/-- number of entries of class 0, 1, 2 -/",
+            "def classCounts : Nat × Nat × Nat := (%d, %d, %d)" % tuple(sum(1 for _, c in rows if c == i) for i in range(3))]
+    out += ["",
             "def ofClass (c : Nat) : List (String × String × String) := (entries.filter (·.2 == c)).map (·.1)",
             "/-- sites with at least one violating template -/",
             "def withTemplate := ofClass 0",
